@@ -21,6 +21,10 @@ pub enum Case {
     /// kernel and evaluated by direct DTFT: stopband (up to the oversampled Nyquist, i.e. all image
     /// bands), passband flatness and the -6 dB point, independent of any stream
     Proto { f32: bool, l8: usize, os: usize, window: u8, fc: f32, seed: u64 },
+    /// impulse response of the whole stream at the rational ratio k/q: q unit impulses whose positions cover all
+    /// residues mod q give the effective filter at a spacing of 1/k input samples; its DTFT is the exact response
+    /// of the resampler as built by the public constructor (filter length, cutoff scaling, window, normalisation)
+    Impulse { cfg: Config, k: usize, q: usize, seed: u64 },
 }
 
 pub struct C02;
@@ -55,7 +59,17 @@ fn run_stop<T: SampleX>(cfg0: &Config, pos: f64, ph: f64) -> Outcome {
     let w = band.window;
     // stopband edge in input-Nyquist units; FFT: the lower Nyquist
     let edge = if is_fft { ratio.min(1.0) } else { band.edge };
-    let guard = 0.25 * band.delta;
+    // the fitted edge is accurate (DESIGN §8: the exact table response meets the stated figure from the edge itself with
+    // 2.9 dB to spare); a small guard band only keeps the tone off the edge itself
+    let guard = 0.10 * band.delta;
+    // known finding D17: when the pass band itself, f_cutoff * min(1, ratio), is narrower than about half a transition
+    // half-width the response is that of the bare window and the stated rejection is not reached (measured on the exact
+    // table response: short by 0.0 dB at 0.5, by up to 17 dB at 0.05; met with >= 1.2 dB to spare from 0.55 on).
+    // Such configurations are excluded by construction and counted; the literal replays of D17 run them.
+    if !is_fft && !cfg0.allow_known && band.edge - band.delta < 0.55 * band.delta {
+        o.class("excluded:D17(pass band narrower than 0.55 transition half-widths)");
+        return o;
+    }
     if edge + guard >= 0.999 {
         o.class("stopband-empty(constructed away)");
         return o;
@@ -97,10 +111,9 @@ fn run_stop<T: SampleX>(cfg0: &Config, pos: f64, ph: f64) -> Outcome {
             if fin <= 0.0 {
                 continue;
             }
+            // every image is sampled at the output rate, i.e. folded into the output band (for ratio 1 and a tone next to
+            // the Nyquist frequency the first image lands on the tone's own line with the same attenuation)
             let g = fin / 2.0 / ratio;
-            if ratio >= 1.0 && g > 0.5 {
-                continue;
-            }
             lines.push(fold(g));
         }
     }
@@ -117,7 +130,10 @@ fn run_stop<T: SampleX>(cfg0: &Config, pos: f64, ph: f64) -> Outcome {
         merged.push((g, 1));
     }
     // lines too close to DC or to the output Nyquist cannot be fitted as sinusoids; they stay in the remainder
+    let n_all: usize = merged.iter().map(|m| m.1).sum();
     let merged: Vec<(f64, usize)> = merged.into_iter().filter(|(g, _)| *g > sep / 2.0 && *g < 0.5 - sep / 2.0).collect();
+    // lines left out of the fit stay in the remainder, which is then allowed their coherent sum
+    let n_unfitted = n_all - merged.iter().map(|m| m.1).sum::<usize>();
     let gs: Vec<f64> = merged.iter().map(|m| m.0).collect();
     let fit = ls_fit(&seg, m0, &gs);
     let rej_db = if is_fft { 100.0 } else { REJ_DB[w] - 3.0 };
@@ -140,12 +156,13 @@ fn run_stop<T: SampleX>(cfg0: &Config, pos: f64, ph: f64) -> Outcome {
         }
     }
     let rest = fit.resid_rms * 2f64.sqrt();
-    worst = worst.max(db(rest / rej));
+    let rej_rest = rej * (n_unfitted.max(1) as f64);
+    worst = worst.max(db(rest / rej_rest));
     o.maxi(&format!("worst_margin_db:{}(neg=ok)", tag), worst);
-    if !(rest <= rej) {
+    if !(rest <= rej_rest) {
         o.fail(
             format!("remainder:{}:{}:{}", kind.name(), tag, if ratio < 1.0 { "down" } else { "up" }),
-            format!("input tone at {:.5} x input Nyquist (stopband edge {:.5}): after removing the {} predicted lines the output still holds {:.1} dB, allowed {:.1} dB; ratio {:.5}, L {}, os {}, interp {}, fc {}", nu_nyq, edge, merged.len(), db(rest), db(rej), ratio, band.filt, cfg.os, cfg.interp % 4, cfg.f_cutoff),
+            format!("input tone at {:.5} x input Nyquist (stopband edge {:.5}): after removing the {} predicted lines the output still holds {:.1} dB, allowed {:.1} dB; ratio {:.5}, L {}, os {}, interp {}, fc {}", nu_nyq, edge, merged.len(), db(rest), db(rej_rest), ratio, band.filt, cfg.os, cfg.interp % 4, cfg.f_cutoff),
         );
         return o;
     }
@@ -264,9 +281,6 @@ fn run_proto(f32_: bool, l8: usize, os: usize, window: u8, fc: f32, seed: u64) -
         }
         for nu in pts {
             let a = resp(nu);
-            if db(a / rej) > worst && db(a / rej) > -9.0 && std::env::var("RV_DUMP").is_ok() {
-                eprintln!("PROTO w={} L={} os={} fc={:.4} cc={:.4} nu={:.5} edge={:.5} d={:.3} margin={:.2}", w, l, os, fc, cc, nu, edge, (nu - (fcd + delta)) / delta, db(a / rej));
-            }
             worst = worst.max(db(a / rej));
             if !(a <= rej) {
                 o.fail(format!("prototype-stopband:{}", WINDOW_NAMES[w]), format!("table response at {:.5} x input Nyquist (stopband edge {:.5}) is {:.1} dB, allowed {:.1} dB; L {}, os {}, cutoff {}", nu, edge, db(a), db(rej), l, os, fc));
@@ -292,6 +306,132 @@ fn run_proto(f32_: bool, l8: usize, os: usize, window: u8, fc: f32, seed: u64) -
         let a = db(resp(fcd));
         if !((a + 6.0206).abs() <= 0.1) {
             o.fail("prototype-six-db", format!("table response at the cutoff {} is {:.3} dB instead of -6.02 dB (L {}, os {}, window {})", fc, a, l, os, WINDOW_NAMES[w]));
+            return o;
+        }
+    }
+    o.nontrivial = edge < top;
+    o
+}
+
+fn run_impulse<T: SampleX>(cfg0: &Config, k: usize, q: usize, seed: u64) -> Outcome {
+    let mut o = Outcome::default();
+    let (mut cfg, excl) = cfg0.sanitized();
+    for l in excl {
+        o.class(l);
+    }
+    let k = k.clamp(2, 4);
+    let mut q = q.clamp(1, 16);
+    while crate::cfg::gcd(k, q) != 1 {
+        q += 1;
+    }
+    cfg.channels = 1;
+    cfg.max_rel = 1.0;
+    cfg.ratio = k as f64 / q as f64;
+    // the k phases of the response fall on table entries: the interpolation between entries is C01's clause
+    cfg.os = (k * (cfg.os / k).max(1)).min(2048 / k * k);
+    let kind = cfg.kind;
+    let ratio = cfg.ratio;
+    let band = band_of(&cfg);
+    let w = band.window;
+    o.class("stream-impulse-response");
+    o.class(format!("kind:{}", kind.name()));
+    o.class(format!("window:{}", WINDOW_NAMES[w]));
+    o.class(if ratio < 1.0 { "down-sampling" } else { "up-sampling" });
+    if cfg.sinc_len % 8 != 0 {
+        o.class("sinc_len not a multiple of 8");
+    }
+    let (delta, edge) = (band.delta, band.edge);
+    let fce = edge - delta;
+    if !cfg0.allow_known && fce < 0.55 * delta {
+        o.class("excluded:D17(pass band narrower than 0.55 transition half-widths)");
+        return o;
+    }
+    let l = band.filt;
+    let mut sp = 2 * l + 16;
+    while sp % q != 1 % q {
+        sp += 1;
+    }
+    let a0 = 2 * l + 8;
+    let at: Vec<u64> = (0..q).map(|j| (a0 + j * sp) as u64).collect();
+    let n_in = a0 + q * sp + 2 * l;
+    let n_out = (n_in as f64 * ratio) as usize;
+    let sig = Signal::Impulses { at: at.clone() };
+    let y = match stream_out::<T>(&cfg, &sig, n_out) {
+        Ok(y) => y,
+        Err(e) => {
+            o.fail(format!("stream-error:{}", kind.name()), e);
+            return o;
+        }
+    };
+    // sample i (in units of 1/k input frames, relative to the impulse) of the effective filter
+    let half = ((l / 2 + 8) * k) as i64;
+    let mut g = vec![f64::NAN; (2 * half + 1) as usize];
+    let mut outside = 0.0f64;
+    for (n, v) in y.iter().enumerate().take(n_out) {
+        let tau = n as f64 / ratio;
+        let j = (((tau - a0 as f64) / sp as f64).round().max(0.0) as usize).min(q - 1);
+        let i = (n * q) as i64 - (at[j] as i64) * k as i64;
+        if i.abs() <= half {
+            g[(i + half) as usize] = v.f64v();
+        } else {
+            outside = outside.max(v.f64v().abs());
+        }
+    }
+    if g.iter().any(|v| v.is_nan()) {
+        o.fail("impulse-assembly", format!("the q = {} impulse responses do not cover all phases (harness)", q));
+        return o;
+    }
+    let single = if cfg.f32 { 64.0 * f32::EPSILON as f64 } else { 0.0 };
+    if outside > 1e-12 + single {
+        o.fail(format!("impulse-support:{}", kind.name()), format!("response of {} to a unit impulse is {} more than sinc_len/2 + 8 = {} input frames away from it; ratio {}/{}, sinc_len {}", kind.name(), outside, l / 2 + 8, k, q, cfg.sinc_len));
+        return o;
+    }
+    let pi = std::f64::consts::PI;
+    let resp = |nu: f64| -> f64 {
+        let (mut re, mut im) = (0.0, 0.0);
+        let w0 = pi * nu / k as f64;
+        for (i, v) in g.iter().enumerate() {
+            if *v != 0.0 {
+                let ph = w0 * (i as f64 - half as f64);
+                re += v * ph.cos();
+                im -= v * ph.sin();
+            }
+        }
+        (re * re + im * im).sqrt() / k as f64
+    };
+    let unit = |i: u64| (crate::signal::hash64(seed ^ crate::signal::hash64(i)) >> 11) as f64 / (1u64 << 53) as f64;
+    let dc = resp(0.0);
+    let rej = undb(-REJ_DB[w]).max(single);
+    // the k phases alias the far stopband (around 2k x input Nyquist) onto DC: at most the rejection figure
+    if (dc - 1.0).abs() > 1e-9 + rej {
+        o.fail(format!("impulse-dc-gain:{}", kind.name()), format!("DC gain of the impulse response is {}; ratio {}/{}, sinc_len {}, window {}, cutoff {}", dc, k, q, cfg.sinc_len, WINDOW_NAMES[w], cfg.f_cutoff));
+        return o;
+    }
+    let top = k as f64;
+    let mut worst = f64::MIN;
+    if edge < top {
+        let mut pts: Vec<f64> = (0..300).map(|i| edge + (top - edge) * (i as f64 / 299.0)).collect();
+        for i in 0..300u64 {
+            pts.push(edge + (3.0 * delta).min(top - edge) * unit(i));
+        }
+        for nu in pts {
+            let a = resp(nu);
+            worst = worst.max(db(a / rej));
+            if !(a <= rej) {
+                o.fail(
+                    format!("impulse-stopband:{}:{}:{}", kind.name(), WINDOW_NAMES[w], if ratio < 1.0 { "down" } else { "up" }),
+                    format!("response of the stream at {:.5} x input Nyquist (stopband edge {:.5}, {:.2} transition half-widths inside) is {:.1} dB, allowed {:.1} dB; ratio {}/{}, sinc_len {}, os {}, interp {}, cutoff {}", nu, edge, (nu - edge) / delta, db(a), db(rej), k, q, cfg.sinc_len, cfg.os, cfg.interp % 4, cfg.f_cutoff),
+                );
+                return o;
+            }
+        }
+        o.maxi(&format!("worst_stream_impulse_stopband_margin_db:{}(neg=ok)", WINDOW_NAMES[w]), worst);
+    }
+    if band.pe > 0.0 && fce + 2.0 * delta <= top {
+        let a = db(resp(fce));
+        o.maxi("worst_stream_impulse_sixdb_deviation", (a + 6.0206).abs());
+        if !((a + 6.0206).abs() <= 0.1) {
+            o.fail(format!("impulse-six-db:{}", kind.name()), format!("response of the stream at the cutoff {:.5} x input Nyquist is {:.3} dB instead of -6.02 dB; ratio {}/{}, sinc_len {}, window {}, cutoff {}", fce, a, k, q, cfg.sinc_len, WINDOW_NAMES[w], cfg.f_cutoff));
             return o;
         }
     }
@@ -337,7 +477,7 @@ impl Property for C02 {
         "C02"
     }
     fn rule(&self) -> String {
-        "cases = sinc or FFT configuration as in C01 and one unit tone between the stopband edge (plus a guard band of 0.25 transition half-widths) and the input Nyquist, down- and up-sampling; the output lines of the tone and of its images are predicted, fitted by least squares (lines closer than 8/M merged with a coherent-sum allowance) and each must be below the stated rejection figure - 3 dB measurement tolerance, as must the remainder (FFT: 100 dB). Plus: the -6.02 +- 0.1 dB point at f_cutoff for ratio >= 1 (generated), and calculate_cutoff on all 12 102 (length 32..=2048, window) pairs: inside (0,1), strictly increasing, f32 == f64 (forced, exhaustive); and the frequency response of the filter table itself (read out tap by tap through the public scalar kernel, evaluated by DTFT on 600 stopband points up to the oversampled Nyquist (the stated figure itself, no tolerance and no guard band: calibrated margin 2.9 dB), 100 passband points and at the cutoff). non-trivial = every case with a non-empty stopband. distinct = distinct case JSON digest.".into()
+        "cases = sinc or FFT configuration as in C01 and one unit tone between the stopband edge (plus a guard band of 0.10 transition half-widths; half of the tones concentrated just above it) and the input Nyquist, down- and up-sampling; the output lines of the tone and of its images are predicted, fitted by least squares (lines closer than 8/M merged with a coherent-sum allowance) and each must be below the stated rejection figure - 3 dB measurement tolerance, as must the remainder (FFT: 100 dB). Plus: the -6.02 +- 0.1 dB point at f_cutoff for ratio >= 1 (generated), and calculate_cutoff on all 12 102 (length 32..=2048, window) pairs: inside (0,1), strictly increasing, f32 == f64 (forced, exhaustive); and the frequency response of the filter table itself (read out tap by tap through the public scalar kernel, evaluated by DTFT on 600 stopband points up to the oversampled Nyquist (the stated figure itself, no tolerance and no guard band: calibrated margin 2.9 dB), 100 passband points and at the cutoff); and the impulse response of the whole stream at rational ratios k/q (k = 2..4, q = 1..16 coprime; q unit impulses covering all residues mod q give the effective filter of the resampler as built by the public constructor at a spacing of 1/k input frames), evaluated by DTFT against the stated figure itself from the stated edge on (600 points up to k x input Nyquist), its DC gain and its -6.02 dB point. Configurations whose pass band f_cutoff*min(1,ratio) is narrower than 0.55 transition half-widths are excluded and counted (known finding D17). non-trivial = every case with a non-empty stopband. distinct = distinct case JSON digest.".into()
     }
     fn assumptions(&self) -> Vec<String> {
         vec![
@@ -347,7 +487,9 @@ impl Property for C02 {
         ]
     }
     fn strategy(&self, _tier: Tier) -> BoxedStrategy<Case> {
-        let stop_sinc = (sinc_fidelity_cfg(), 0.0f64..=1.0, 0.0f64..6.283, prop_oneof![1 => Just(-1.0f32), 1 => Just(-2.0f32), 1 => 0.3f32..1.0]).prop_map(|(mut cfg, pos, ph, fc)| {
+        // half of the tones are concentrated just above the stopband edge (pos^4), where an error of the edge shows
+        let pos = prop_oneof![1 => 0.0f64..=1.0, 1 => (0.0f64..=1.0).prop_map(|u| u * u * u * u)];
+        let stop_sinc = (sinc_fidelity_cfg(), pos, 0.0f64..6.283, prop_oneof![1 => Just(-1.0f32), 1 => Just(-2.0f32), 1 => 0.3f32..1.0]).prop_map(|(mut cfg, pos, ph, fc)| {
             // f_cutoff <= calculate_cutoff so that the stopband is not empty: {cc, min(0.95, cc), U[0.3, cc]}
             let cc: f32 = rubato::calculate_cutoff::<f32>(cfg.filt_len(), window_of(cfg.window));
             cfg.f_cutoff = if fc == -1.0 { cc } else if fc == -2.0 { cc.min(0.95) } else { 0.3 + (fc - 0.3) / 0.7 * (cc - 0.3) };
@@ -380,7 +522,13 @@ impl Property for C02 {
             let cc: f32 = rubato::calculate_cutoff::<f32>(8 * l8, window_of(window));
             Case::Proto { f32, l8, os, window, fc: if fc < 0.0 { cc } else { fc }, seed }
         });
-        prop_oneof![6 => stop_sinc, 2 => stop_fft, 1 => six, 2 => proto].boxed()
+        let impulse = (sinc_fidelity_cfg(), 2usize..=4, prop_oneof![2 => Just(1usize), 3 => 1usize..=7, 1 => 1usize..=16], any::<u64>(), prop_oneof![1 => Just(-1.0f32), 1 => Just(-2.0f32), 1 => 0.3f32..1.0]).prop_map(|(mut cfg, k, q, seed, fc)| {
+            let cc: f32 = rubato::calculate_cutoff::<f32>(cfg.filt_len(), window_of(cfg.window));
+            cfg.f_cutoff = if fc == -1.0 { cc } else if fc == -2.0 { cc.min(0.95) } else { 0.3 + (fc - 0.3) / 0.7 * (cc - 0.3) };
+            cfg.chunk = cfg.chunk.min(512);
+            Case::Impulse { cfg, k, q, seed }
+        });
+        prop_oneof![6 => stop_sinc, 2 => stop_fft, 1 => six, 2 => proto, 3 => impulse].boxed()
     }
     fn cases(&self, tier: Tier) -> u32 {
         if tier.thorough() {
@@ -409,6 +557,13 @@ impl Property for C02 {
                 }
             }
             Case::Table => run_table(),
+            Case::Impulse { cfg, k, q, seed } => {
+                if cfg.f32 {
+                    run_impulse::<f32>(cfg, *k, *q, *seed)
+                } else {
+                    run_impulse::<f64>(cfg, *k, *q, *seed)
+                }
+            }
             Case::Proto { f32, l8, os, window, fc, seed } => run_proto(*f32, *l8, *os, *window, *fc, *seed),
         }
     }
